@@ -18,7 +18,9 @@ func ResourcesUniverse(level string) *Universe {
 	ent := u.Record("Ent", nil, Req("a", P(Int32)), Req("s", P(String)), Opt("o", P(String)), Opt("m", MapOf(P(String))), Opt("l", ArrayOf(P(Int64))))
 	meta := u.Record("Meta", nil, Req("total", P(Int32)), Opt("note", P(String)))
 	// (ko: an optional key field, left unset by most keys)
-	keyRec := u.Record("KeyRec", nil, Req("k1", P(String)), Req("k2", P(Int64)), Opt("ko", P(String)))
+	// (kb: a key field that the key record inherits from an included record)
+	keyBase := u.Record("KeyBase", nil, Opt("kb", P(String)))
+	keyRec := u.Record("KeyRec", []*Type{keyBase}, Req("k1", P(String)), Req("k2", P(Int64)), Opt("ko", P(String)))
 	parRec := u.Record("ParRec", nil, Opt("p", P(String)))
 	ck := u.ComplexKey("CK", keyRec, parRec)
 	// entity with read-only / create-only annotated fields (C07)
